@@ -249,7 +249,13 @@ def _tagged(raw, tag):
 
 CORPUS = [b'LIST "" "&2D3eA-"', b'LSUB "" "&AOk"', b'LIST "&AOk" *', b'SELECT "&"', b'SELECT "x&y"', b'STATUS "&AOk" (MESSAGES)', b'CREATE "a/b/c/d"', b'CREATE "p/q"', b'RENAME "p/q" "p/q/r"',
           b'RENAME INBOX "moved"', b'FETCH 1 (FLAGS)', b'SEARCH SUBJECT "\xff"', b'SEARCH CHARSET utf-8 SUBJECT {2+}\r\n\xc3\x28', b'SEARCH NOT NOT NOT SEEN', b'CREATE "."', b'DELETE ".."', b'CREATE ""',
-          b'APPEND INBOX (\\Seen) " 1-Jan-2020 10:00:00 +0000" {3+}\r\nabc', b'UID SEARCH 1:*', b'AUTHENTICATE PLAIN\r\nA', b'MOVE 1:* INBOX', b'COPY 1:* "a.b"']
+          b'APPEND INBOX (\\Seen) " 1-Jan-2020 10:00:00 +0000" {3+}\r\nabc', b'UID SEARCH 1:*',
+          b'SEARCH CHARSET UTF-8 HEADER "S\xc3\xbcbject" x', b'SEARCH ' + b'(' * 400 + b'ALL' + b')' * 400, b'SEARCH ' + b'OR ALL ' * 600 + b'ALL', b'SEARCH ' + b'NOT ' * 3000 + b'ALL',
+          b'FETCH 1 (' + b'(' * 500, b'SEARCH CHARSET utf-8 HEADER {2+}\r\n\xc3\x28 x', b'STORE 1 FLAGS (' + b'(' * 300, b'AUTHENTICATE PLAIN\r\nA', b'MOVE 1:* INBOX', b'COPY 1:* "a.b"']
+
+
+LOGIN_CORPUS = [b'LOGIN "\xff" p', b'LOGIN u {1+}\r\n\xff', b'LOGIN {2+}\r\n\xed\xa0 x', b'LOGIN "u\x00" p', b'LOGIN ' + b'a' * 3000 + b' p', b'AUTHENTICATE PLAIN ' + b'/' * 400,
+                b'AUTHENTICATE PLAIN\r\n/wD/AP8=', b'AUTHENTICATE LOGIN\r\n/w==\r\n/w==', b'LOGIN "\xe2\x80\xa8" "\xe2\x80\xa8"', b'LOGIN u\x7f p']
 
 
 async def fuzz_lines(part, r, backend, nlines):
@@ -257,6 +263,23 @@ async def fuzz_lines(part, r, backend, nlines):
     await run.start()
     try:
         conns = {}
+        for k, body in enumerate(LOGIN_CORPUS):
+            c = await run.connect(0)
+            parts_ = body.split(b'\r\n')
+            if body.startswith(b'AUTHENTICATE') and len(parts_) > 1:
+                raw = await c.send(b'l%d ' % k + parts_[0] + b'\r\n')
+                for extra in parts_[1:]:
+                    if not c.task.done():
+                        raw += await c.send(extra + b'\r\n')
+                site = crash_sig(c)
+                if b'[SERVERBUG]' in raw or site:
+                    part.violation('monitor', f'internal-error BYE ({site}) for the SASL exchange {body!r}: {raw[-120:]!r}', dict(state=0, line=body.decode('latin1')), signature='serverbug:' + str(site))
+            else:
+                await run.line(c, 0, b'l%d' % k, body, 'login-corpus')
+            try:
+                await c.eof()
+            except Exception:
+                pass
         c = await run.connect(2)
         for k, body in enumerate(CORPUS):
             if c.task.done():
@@ -486,6 +509,45 @@ def l1_modutf7(part, r, n):
             part.violation('correspondence', f'modutf7_decode({raw!r}) raises ValueError, ModUtf7.decodeName accepts it: {m}', dict(level='L1', encoded=list(raw)), signature='l1-mutf7-reject')
 
 
+# ------------------------------------------------------------------ multi-session programs: every command of every session is answered
+MULTI_CORPUS = [
+    # a message is delivered to a session's \\Recent set and expunged by someone else before that session has synchronised it
+    dict(nsess=2, program=[['select', 1, 0, False], ['append', 0, 0, [], 1, 0, 0], ['select', 0, 0, False], ['store', 0, False, '*', 1, [3], False], ['expunge', 0, None],
+                           ['fetch', 1, False, '1:*', ['FLAGS']], ['noop', 1], ['search', 1, False, None, None, []]]),
+    dict(nsess=2, program=[['append', 0, 0, [], 1, 0, 0], ['select', 1, 0, False], ['append', 0, 0, [3], 2, 0, 0], ['select', 0, 0, False], ['expunge', 0, None],
+                           ['store', 1, False, '1:*', 1, [0], True], ['noop', 1], ['fetch', 1, False, '1:*', ['UID']]]),
+    dict(nsess=3, program=[['select', 1, 0, False], ['select', 2, 0, True], ['append', 0, 0, [3], 1, 0, 0], ['copy', 1, False, False, '1:*', 0, 0], ['select', 0, 0, False],
+                           ['expunge', 0, None], ['search', 1, False, '1:*', None, []], ['fetch', 2, False, '1:*', ['FLAGS']], ['store', 1, False, '1:*', 2, [3], False]]),
+]
+
+
+def multi_session(part, r, n):
+    from .common import l3
+    from . import c17
+    cases = [(c['nsess'], c['program']) for c in MULTI_CORPUS]
+    for _ in range(n):
+        nsess = r.choice([2, 2, 3])
+        prog = l3.gen_program(r, nsess, r.randint(5, 16), dict(c17.PROFILE, weights=dict(c17.PROFILE['weights'], store=14, fetch=12, expunge=10, search=6, append=18), recent_in_flags=0.0))
+        prog = [op for k, op in enumerate(prog) if not (k < nsess and op[0] == 'select' and r.random() < 0.5)]
+        cases.append((nsess, prog))
+    for nsess, prog in cases:
+        case = dict(nsess=nsess, program=prog, family='multi-session')
+        try:
+            ext, outs, final = asyncio.run(l3.run_real(nsess, prog, dumps=False))
+        except Exception as exc:   # noqa
+            part.violation('monitor', f'multi-session program: {type(exc).__name__}: {exc}', dict(case, traceback=traceback.format_exc()[-800:]), signature=f'exception:{type(exc).__name__}')
+            continue
+        part.case(key='multi:' + repr(prog), nontrivial=True)
+        part.trace()
+        for j, (op, raw) in enumerate(zip(ext, outs)):
+            if b'[SERVERBUG]' in raw:
+                part.violation('monitor', f'internal-error BYE answering command #{j} {op} of the multi-session program {ext}: {raw[-100:]!r}', dict(case, at=j), signature='serverbug:multi-session')
+                break
+            if raw == b'' or not any(l.startswith(b'a OK') or l.startswith(b'a NO') or l.startswith(b'a BAD') for l in raw.split(b'\r\n')):
+                part.violation('monitor', f'command #{j} {op} of the multi-session program {ext} got no tagged completion: {raw[-100:]!r}', dict(case, at=j), signature='multi-session-not-answered')
+                break
+
+
 def worker(job):
     import logging
     logging.disable(logging.CRITICAL)          # pymap logs handled exceptions of the sieve listener
@@ -512,6 +574,8 @@ def worker(job):
         pass
     except Exception as exc:   # noqa
         part.violation('monitor', f'C06 sieve: {type(exc).__name__}: {exc}', dict(seed=seed, traceback=traceback.format_exc()[-1200:]), signature=f'exception:{type(exc).__name__}')
+    with guarded(part, 'C06 multi-session', dict(seed=seed)):
+        multi_session(part, r, max(4, nlines // 12))
     with guarded(part, 'C06 outcome table', dict(seed=seed)):
         asyncio.run(outcome_sequences(part, r, nseq))
     with guarded(part, 'C06 modutf7', dict(seed=seed)):
